@@ -131,11 +131,22 @@ def monAccepted (what : String) (isReq : Bool) (lim : Int) (fs : List (List Nat 
        [("accept_wellformed", "-", s!"{what} accepted a section violating: {",".intercalate bad}")]) ++
     (if qerr then [("qpack_error_ignored", "-", s!"{what} accepted although the decoder reported an error")] else [])
 
+/-- the Content-Length handed to net/http is the decimal value of the field (a non-negative int64), -1 without one -/
+def monClValue (what : String) (fs : List (List Nat × List Nat)) (impl : String) : List Fail :=
+  if !impl.startsWith "ok" then []
+  else
+    let got := ((words impl).find? (fun w => w.startsWith "cl=")).map (fun w => (w.drop 3).toString)
+    let exp : Int := match clValuesOf fs with
+      | v :: _ => (Uquic.Spec.H3Fields.decimalValue v : Int)
+      | [] => -1
+    if got == some (toString exp) then [] else
+      [("content_length_value", "-", s!"{what}: ContentLength {got.getD "?"} handed over, the field section says {exp}")]
+
 /-- completeness direction, only for what the statement covers: a well-formed section whose
     Content-Length fits 63 bits must not be rejected by parseHeaders -/
 def monRejected (isReq : Bool) (lim : Int) (fs : List (List Nat × List Nat)) (qerr : Bool) (impl : String) : List Fail :=
   if !impl.startsWith "E:" || qerr then []
-  else if (failingClauses isReq lim fs).isEmpty && (clValuesOf fs).all (fun v => decVal v < 2 ^ 63) then
+  else if (failingClauses isReq lim fs).isEmpty then
     [("reject_wellformed", "-", s!"well-formed section rejected with {impl}")]
   else []
 
@@ -164,13 +175,14 @@ def step (s : St) (op impl : String) : St × StepOut :=
       | .ok h => (if h.contentLength ≥ 0 then ["hdr:cl"] else []) ++ (if h.headers.isEmpty then [] else ["hdr:regular"])
       | _ => [])
     (s, { model := fmtHdrRes r, tags := tags,
-          fails := monAccepted "parseHeaders" isReq lim fs qerr implOk ++ monRejected isReq lim fs qerr impl })
+          fails := monAccepted "parseHeaders" isReq lim fs qerr implOk ++ monRejected isReq lim fs qerr impl ++
+            monClValue "parseHeaders" fs impl })
   | "req" :: lim :: q :: toks =>
     let (fs, flagged) := parseFieldToks toks
     let lim := intOf lim
     let qerr := q == "q1"
     let r := requestFromHeaders (extOf flagged) (fun _ => impl != "E:url") lim fs qerr
-    let fails := monAccepted "requestFromHeaders" true lim fs qerr implOk ++
+    let fails := monAccepted "requestFromHeaders" true lim fs qerr implOk ++ monClValue "requestFromHeaders" fs impl ++
       (if implOk && !requestRules fs then [("request_rules", "-", "accepted request violates the pseudo-header rules")] else [])
     let tags := [errTag "req" r] ++ (match r with
       | .ok x => (if x.method == mConnect then [if x.proto == vHTTP30 then "req:connect" else "req:extconnect"] else []) ++
@@ -183,7 +195,7 @@ def step (s : St) (op impl : String) : St × StepOut :=
     let lim := intOf lim
     let qerr := q == "q1"
     let r := updateResponseFromHeaders (extOf flagged) lim fs qerr
-    let fails := monAccepted "updateResponseFromHeaders" false lim fs qerr implOk ++
+    let fails := monAccepted "updateResponseFromHeaders" false lim fs qerr implOk ++ monClValue "updateResponseFromHeaders" fs impl ++
       (if implOk && !responseRules fs then [("response_rules", "-", "accepted response without a numeric :status")] else [])
     (s, { model := fmtRspRes r, tags := [errTag "rsp" r], fails := fails })
   | "trl" :: lim :: q :: toks =>
